@@ -445,7 +445,12 @@ class Origins:
             base = self.of_place(rv["p"], deep, _stack)
             return frozenset(Atom((a.kind, a.key, (a.steps + ("#discr",))[-MAX_STEPS:])) for a in base)
         if k == "bin":
-            return self.of_operand(rv["a"], deep, _stack) | self.of_operand(rv["b"], deep, _stack)
+            a = self.of_operand(rv["a"], deep, _stack)
+            b = self.of_operand(rv["b"], deep, _stack)
+            if rv["op"] in ("Div", "Rem", "Shr", "ShrUnchecked"):
+                # lossy arithmetic: remember it on the dividend's atoms (used by bound rules)
+                a = frozenset(Atom((x.kind, x.key, (x.steps + ("op:" + rv["op"][:3],))[-MAX_STEPS:])) for x in a)
+            return a | b
         if k == "agg":
             out = set()
             if not partial:
